@@ -257,10 +257,10 @@ func sweepC03(tier string, emit func(*CaseC03)) {
 			continue
 		}
 		emit(&CaseC03{Boxes: rowBoxes(n, 7, 5), H: 7, V: 5})
-		emit(&CaseC03{Boxes: rowBoxes(n, 7, 5), H: 6, V: 4})
+		emit(allProcs(&CaseC03{Boxes: rowBoxes(n, 7, 5), H: 6, V: 4}))
 		emit(&CaseC03{Boxes: rowBoxes(n, 7, 7), H: 7, V: 7, Spatial: true})
 		if n <= 1025 {
-			emit(&CaseC03{Boxes: rowBoxes(n, 7, 5), H: 7, V: 6})
+			emit(allProcs(&CaseC03{Boxes: rowBoxes(n, 7, 5), H: 7, V: 6}))
 		}
 	}
 	if tier != "quick" {
